@@ -41,6 +41,7 @@ fn replay(prop: &str, file: &str) -> i32 {
             "spans" => props_total::replay_spans(&case),
             "walk" => props_fs::replay_walk(&case, prop),
             "depthwalk" => props_links::replay_depthwalk(&case),
+            "prune" => props_fs::replay_prune(&case),
             "faultwalk" => props_links::replay_faultwalk(&case),
             "stack" => props_stack::replay_stack(&case, prop),
             "partition-programs" => props_stack::replay_partition_programs(&case),
